@@ -1965,7 +1965,10 @@ class Interp:
                 return self.fresh("len")
             return len(x)
         if name == "callable":
-            return isinstance(args[0], (Func, ClassRef, BoundBuiltin)) or (isinstance(args[0], ExtRef)) or (self.fresh("callable") if isinstance(args[0], Unknown) else False)
+            a0 = args[0]
+            if getattr(a0, "_opsa_stub", False) or (isinstance(a0, Obj) and a0.cls is not None and self.p.find_method(a0.cls, "__call__") is not None):
+                return True             # a harness stub standing for a function; an instance of a class with __call__
+            return isinstance(a0, (Func, ClassRef, BoundBuiltin)) or (isinstance(a0, ExtRef)) or (self.fresh("callable") if isinstance(a0, Unknown) else False)
         if name in ("getattr", "hasattr"):
             o, a = args[0], args[1]
             if isinstance(a, Unknown):
@@ -3056,6 +3059,15 @@ class LinInterp(Interp):
         if isinstance(a, Lin) or isinstance(b, Lin):
             if isinstance(op, (ast.Is, ast.IsNot)):
                 return isinstance(op, ast.IsNot)
+            other = b if isinstance(a, Lin) else a
+            if isinstance(other, float) and (other != other or other in (float("inf"), float("-inf"))):
+                # a symbolic quantity is a finite number: it equals neither infinity nor NaN and lies strictly between the infinities
+                if other != other:
+                    return isinstance(op, ast.NotEq)
+                big = other > 0
+                lin_left = isinstance(a, Lin)
+                less = big if lin_left else not big           # is (left < right)?
+                return {ast.Eq: False, ast.NotEq: True, ast.Lt: less, ast.LtE: less, ast.Gt: not less, ast.GtE: not less}.get(type(op), Unknown(f"({a!r} {type(op).__name__} {b!r})"))
             return Unknown(f"({a!r} {type(op).__name__} {b!r})")
         return super().compare(op, a, b, label)
 
